@@ -371,7 +371,7 @@ impl Assembler for GradSliceAssembler {
         dynasm!(self.0.ops
             ; vcomiss Rx(reg(lhs_reg)), Rx(reg(rhs_reg))
             ; jp >N // Parity flag is set if result is NAN
-            ; ja >R
+            ; jae >R // on a tie, pick the right-hand side like `Grad::min`
 
             // Fallthrough
             ; vmovups Rx(reg(out_reg)), Rx(reg(lhs_reg))
